@@ -8,7 +8,13 @@
 (*   layer  "wrap" (%w, Unwrap: the cause stays reachable) or "flat"       *)
 (*          (%v / err.Error(): the cause is lost; Shape = "pinned")        *)
 (* Stages: size and tokens (limits), lex, parse, depth (nesting limit),    *)
-(* cancel (the context's error is the root).                               *)
+(* empty (the input holds no statement: empty, blank, semicolons or a      *)
+(* comment only), cancel (the context's error is the root).                *)
+(* Between the two runs of a call ANOTHER call happens - any entry point,  *)
+(* failing in any stage or succeeding.  Shape = "shared-root": the error   *)
+(* of the empty stage is one shared object into which position-tracking   *)
+(* entry points write their location, so what a run returns depends on the *)
+(* call before it.                                                         *)
 (* Properties (C13):                                                       *)
 (*   Reachable      errors.As finds a structured error on every failure    *)
 (*                  except cancellation, where errors.Is finds the         *)
@@ -23,7 +29,9 @@ EXTENDS Integers, Sequences, FiniteSets, TLC, Json
 
 CONSTANTS Shape, Emit
 
-Stages == {"size", "tokens", "lex", "parse", "depth", "cancel"}
+Stages == {"size", "tokens", "lex", "parse", "depth", "empty", "cancel"}
+\* what the call between the two runs does: fails in a stage (the limit stages are left to the first call) or succeeds
+BetweenStages == (Stages \ {"size", "tokens"}) \cup {"accept"}
 EntryPoints == {"Tokenizer.Tokenize", "gosqlx.Parse", "gosqlx.ParseBytes", "gosqlx.ParseWithContext", "gosqlx.ParseWithTimeout",
                 "gosqlx.ParseMultiple", "gosqlx.Validate", "gosqlx.ValidateMultiple", "gosqlx.ParseWithRecovery",
                 "parser.ParseBytes", "parser.Validate", "parser.ParseBytesWithTokens", "parser.ParseWithDialect",
@@ -31,28 +39,40 @@ EntryPoints == {"Tokenizer.Tokenize", "gosqlx.Parse", "gosqlx.ParseBytes", "gosq
 \* which stages an entry point can fail in
 CanFail(ep, st) == /\ (st = "cancel" => ep \in {"gosqlx.ParseWithContext", "gosqlx.ParseWithTimeout", "Parser.ParseContext"})
                    /\ (ep = "Tokenizer.Tokenize" => st \in {"size", "tokens", "lex"})
-                   /\ (ep \in {"Parser.Parse", "Parser.ParseContext", "Parser.ParseWithPositions"} => st \in {"parse", "depth", "cancel"})
-Family(st) == CASE st \in {"size", "tokens"} -> "limit" [] st = "lex" -> "tokenizer" [] st \in {"parse", "depth"} -> "parser" [] OTHER -> "context"
+                   /\ (ep \in {"Parser.Parse", "Parser.ParseContext", "Parser.ParseWithPositions"} => st \in {"parse", "depth", "empty", "cancel"})
+Family(st) == CASE st \in {"size", "tokens"} -> "limit" [] st = "lex" -> "tokenizer" [] st \in {"parse", "depth", "empty"} -> "parser" [] OTHER -> "context"
+Tracking == {"Parser.ParseWithPositions"}      \* entry points that put their own position into the errors they return
 
-NoRoot == [structured |-> FALSE, family |-> "none"]
-VARIABLES ep, stage, run, root, layers, first
-vars == <<ep, stage, run, root, layers, first>>
+NoRoot == [structured |-> FALSE, family |-> "none", loc |-> "none"]
+VARIABLES ep, stage, run, root, layers, first,
+          between,      \* the call made between the two runs: <<entry point, stage>>
+          sentinel      \* shape "shared-root": who last wrote a location into the shared error of the empty stage
+vars == <<ep, stage, run, root, layers, first, between, sentinel>>
 
 Init == /\ ep \in EntryPoints /\ stage \in Stages /\ CanFail(ep, stage)
         /\ run = 1 /\ root = NoRoot /\ layers = <<>> /\ first = [root |-> NoRoot, layers |-> <<>>]
+        /\ between = <<"none", "none">> /\ sentinel = "unset"
 
+\* the location a root carries: its own call's, except for the shared error of the empty stage
+Writes(e, st) == Shape = "shared-root" /\ st = "empty" /\ e \in Tracking
+LocOf(e, st) == IF Shape = "shared-root" /\ st = "empty" THEN (IF e \in Tracking THEN e ELSE sentinel) ELSE "own"
 Fail == /\ root = NoRoot
         /\ \E structured \in (IF Shape = "pinned" THEN BOOLEAN ELSE {TRUE}) :
-              root' = [structured |-> (structured /\ stage # "cancel"), family |-> Family(stage)]
-        /\ UNCHANGED <<ep, stage, run, layers, first>>
+              root' = [structured |-> (structured /\ stage # "cancel"), family |-> Family(stage), loc |-> LocOf(ep, stage)]
+        /\ sentinel' = IF Writes(ep, stage) THEN ep ELSE sentinel
+        /\ UNCHANGED <<ep, stage, run, layers, first, between>>
 Return == /\ root # NoRoot /\ Len(layers) < 3
           /\ \E k \in (IF Shape = "pinned" THEN {"wrap", "flat"} ELSE {"wrap"}) : layers' = Append(layers, k)
-          /\ UNCHANGED <<ep, stage, run, root, first>>
+          /\ UNCHANGED <<ep, stage, run, root, first, between, sentinel>>
 Value == [root |-> root, layers |-> layers]
-\* the call returns; a second run on the same input starts
+\* the call returns; another call happens; a second run on the same input starts
 Again == /\ root # NoRoot /\ run = 1
+         /\ \E e2 \in EntryPoints, s2 \in BetweenStages :
+               /\ (s2 # "accept" => CanFail(e2, s2))
+               /\ between' = <<e2, s2>>
+               /\ sentinel' = IF Writes(e2, s2) THEN e2 ELSE sentinel
+               /\ (Emit => PrintT(ToJson([ep |-> ep, stage |-> stage, family |-> Family(stage), ep2 |-> e2, stage2 |-> s2])))
          /\ first' = Value /\ run' = 2 /\ root' = NoRoot /\ layers' = <<>>
-         /\ (Emit => PrintT(ToJson([ep |-> ep, stage |-> stage, family |-> Family(stage)])))
          /\ UNCHANGED <<ep, stage>>
 Next == Fail \/ Return \/ Again
 Spec == Init /\ [][Next]_vars
